@@ -125,7 +125,7 @@ def run(ctx):
     qstats = {"suggest": 0, "client_steps": 0, "syncdone": 0, "queue_states": 0}
     for i, (name, args) in enumerate(plans):
         path = ctx.path("trace_%s.ndjson" % name)
-        lib.run_bin(os.path.join(wbin, "c01_driver"), [path] + args, env_extra={"VERIF_SEED": str(ctx.seed * 100 + i)}, timeout=3000)
+        lib.run_bin(os.path.join(wbin, "c01_driver"), [path] + args, env_extra={"VERIF_SEED": str(ctx.seed * 100 + i), "VERIF_SUGGEST": "1"}, timeout=3000)
         with open(path) as f:
             for line in f:
                 rr = json.loads(line)
